@@ -75,18 +75,115 @@ theorem probe_generalized :
     render (generalizedText true probe) = "read tcp: network is down" ∧
     render (generalizedText false probe) = "read tcp: network is down" := by decide
 
+/-! ### where error texts come from: classes, flattening, construction from client-derived values -/
+
+/-- **`generalizeErr` is precise about what it sanitises**: an error that names clients only inside operation
+errors reachable by `Unwrap` (class `structured`; its opaque parts may name the station, a phantom or the
+covert) comes out without any client address … -/
+theorem generalize_structured_no_client (app : Bool) (e : Err) (h : e.inCls .structured) :
+    noClient (generalizedText app e) = true :=
+  generalizedText_noClient app e h
+
+/-- … wrapping with `%w` keeps the class, flattening a clean error keeps it clean … -/
+theorem wrap_keeps_class (c : Cls) (pre : List Tok) (e : Err) (hp : noClient pre = true) (h : e.inCls c) :
+    (Err.wrapped pre e).inCls c := wrapped_inCls c pre e hp h
+
+theorem flatten_within_flat (c : Cls) (pre post : List Tok) (e : Err) (hp : noClient pre = true)
+    (hq : noClient post = true) (h : e.inCls c) : (Err.other (pre ++ e.text ++ post)).inCls c.flat :=
+  flattened_inCls c pre post e hp hq h
+
+/-- … but **a structured error that was flattened stays tainted through `generalizeErr`**: the dial error of
+a connecting transport (`dial udp <station>-><client>: connect: network is unreachable`, class `structured`)
+formatted with `%v` into `error connecting to dtls client: …` has no operation error left for the sanitiser
+to strip; both variants of the function return it with the client's endpoint in the text.  This is why
+`Cls.flat .structured = .leaky` and why `Cls.gen .leaky = .leaky`. -/
+def dialError : Err :=
+  .opError "dial" "udp" (some ⟨.station, "[::]:41245"⟩) (some ⟨.client, "[2001:db8:77::c17]:54321"⟩)
+    (.syscallErr "connect" (.errno 101 "network is unreachable"))
+def flattenedDialError : Err := .other ([.str "error connecting to dtls client: "] ++ dialError.text)
+
+theorem flattened_structured_stays_tainted (app : Bool) :
+    dialError.opaqueNoClient = true ∧ noClient (generalizedText app dialError) = true ∧
+    noClient (generalizedText app flattenedDialError) = false ∧
+    Cls.gen (Cls.flat .structured) = .leaky := by
+  cases app <;> exact ⟨by decide, by decide, by decide, rfl⟩
+
+/-- **an error constructed from a client-derived value is tainted whatever is wrapped inside it**: the
+PROXY header quoted into `wrote 0 bytes of "PROXY TCP4 <client> …": <write error of the covert connection>`
+puts the client into the text although the wrapped write error is clean; a `Src.tainted` source is
+`leaky` for every table, with or without `generalizeErr`. -/
+def headerWriteError : Err :=
+  .wrapped [.str "wrote 0 bytes of \"PROXY TCP4 ", .addr ⟨.client, "203.0.113.77"⟩, .str " 127.0.0.1 5555 1234\\r\\n\": "]
+    (.opError "write" "tcp" (some ⟨.station, "10.9.8.7:40000"⟩) (some ⟨.covert, "198.51.100.5:443"⟩)
+      (.syscallErr "write" (.errno ECONNRESET "connection reset by peer")))
+
+theorem tainted_construction_is_opaque (known : List Cls) (self : Nat) (w : String) (app : Bool) :
+    srcCls known self (.tainted w) = .leaky ∧ (Arg.err (.tainted w)).ok known = false ∧
+    noClient headerWriteError.text = false ∧ noClient (generalizedText app (.other headerWriteError.text)) = false := by
+  refine ⟨rfl, by simp [Arg.ok, siteSrcCls, srcCls, rsrcCls, Src.resolve], by decide, ?_⟩
+  cases app <;> decide
+
+/-- the class computation is monotone in what it is told about a call: no source can lower the class of
+a function below that of any of its sources (`Cls.max` is an upper bound) -/
+theorem cls_max_upper (a b : Cls) : (a.max b = .clean → a = .clean ∧ b = .clean) := by
+  cases a <;> cases b <;> simp [Cls.max]
+
 /-! ### call sites (tie 1: the table is regenerated from the sources on every run) -/
 
-/-- **Every logger call that is emitted at the default level prints only arguments that cannot carry a
-client address**: literals, numbers, type names, errors that went through `generalizeErr`, raw errors
-from a reviewed origin, reviewed expressions that are not client addresses.  (Checked by evaluation over
-the regenerated table: a new call site that prints a raw error from an unreviewed call, a client address
-or an unreviewed expression makes this theorem fail.) -/
-theorem sites_all_ok : CJ.Gen.logSites.all (Site.ok CJ.Gen.levelEmitted) = true := by
-  set_option maxRecDepth 200000 in decide
+/-- the regenerated summaries with the reviewed tables consulted, and the classes the extractor computed
+for them (a certificate: `classes_fixpoint` checks it) -/
+def resolved : List RFn := CJ.Gen.errFns.map ErrFn.resolve
+def fnClasses : List Cls := CJ.Gen.errFnClasses
 
-theorem sites_no_addr : ∀ s ∈ CJ.Gen.logSites, s.ok CJ.Gen.levelEmitted = true :=
+/-- everything that is checked by evaluation over the regenerated call-site and summary tables, in one
+evaluation (the theorems below are its parts) -/
+def tablesOk (k : List Cls) : Bool :=
+  solves resolved k && CJ.Gen.logSites.all (Site.ok CJ.Gen.levelEmitted k)
+
+theorem tables_ok : tablesOk fnClasses = true := by decide +kernel
+
+/-- **Every logger call that is emitted at the default level prints only arguments that cannot carry a
+client address**: literals, numbers, type names, reviewed expressions that are not client addresses, and
+error values whose class is `clean` — where the class of an error is computed from where it comes from:
+a reviewed call outside the repository (`leafClasses`; an unlisted call is `leaky`), or functions of the
+repository, whose regenerated summaries (`CJ.Gen.errFns`) say what they return: another call's error as it
+is or wrapped with `%w` (same class), flattened into text (`Cls.flat`: leaky unless it was clean), passed
+through `generalizeErr` (`Cls.gen`: clean unless it was leaky), or constructed from a client-derived value
+(leaky).  Checked by evaluation over the regenerated tables: a new call site that prints a raw error from
+an unreviewed call, a client address or an unreviewed expression, a helper that starts to format a
+client-derived value into the error it returns, a sanitised error whose origin flattens an operation error,
+each make this theorem fail. -/
+theorem sites_all_ok : CJ.Gen.logSites.all (Site.ok CJ.Gen.levelEmitted fnClasses) = true := by
+  have h := tables_ok
+  simp only [tablesOk, Bool.and_eq_true] at h
+  exact h.2
+
+theorem sites_no_addr : ∀ s ∈ CJ.Gen.logSites, s.ok CJ.Gen.levelEmitted fnClasses = true :=
   List.all_eq_true.mp sites_all_ok
+
+/-- **the classes used by the call-site theorem solve the class equations** of the regenerated summaries:
+the class of every summarised function is what its sources give — the reviewed class of the calls that leave
+the repository, the classes of the functions it calls (recursion through name-resolved methods included),
+`Cls.flat` for what it flattens, `Cls.gen` for what it sanitises, `leaky` for what it builds from a
+client-derived value.  The list comes from the extractor; this theorem is what makes it more than a claim. -/
+theorem classes_fixpoint : solves resolved fnClasses = true := by
+  have h := tables_ok
+  simp only [tablesOk, Bool.and_eq_true] at h
+  exact h.1
+
+/-- a solution assigns a class to every summarised function and to nothing else -/
+theorem checkFrom_length (k : List Cls) : ∀ (i : Nat) (r : List RFn) (cs : List Cls),
+    checkFrom k i r cs = true → cs.length = r.length
+  | _, [], [], _ => rfl
+  | i, f :: fs, c :: cs, h => by
+    simp only [checkFrom, Bool.and_eq_true] at h
+    simp [checkFrom_length k (i + 1) fs cs h.2]
+  | _, [], _ :: _, h => by simp [checkFrom] at h
+  | _, _ :: _, [], h => by simp [checkFrom] at h
+
+theorem classes_length : fnClasses.length = CJ.Gen.errFns.length := by
+  have := checkFrom_length fnClasses 0 resolved fnClasses classes_fixpoint
+  simpa [resolved] using this
 
 /-- the level table observed on the code lists every level (none is emitted merely because it is missing) -/
 theorem level_table_complete (l : Level) : (CJ.Gen.levelEmitted.lookup l).isSome = true := by
@@ -106,14 +203,15 @@ and `regExpireLogMsg` (reflect) and every key of `DecoyRegistration.String()` (i
 that cannot hold an address, or a string field whose content was reviewed -/
 theorem summary_fields_reviewed : CJ.Gen.summaryFields.all fieldOk = true := by decide
 
-/-- **Semantic reading of the table**: in every environment that respects the reviewed tables (listed
-origins return errors without client addresses, listed non-client expressions render no client address)
-and for every error value handed to `generalizeErr`, what an emitted, non-exempt call site prints
-contains no client address. -/
+/-- **Semantic reading of the table**: in every environment that respects the tables (every call returns an
+error within the class computed for it — `clean`: no client address in its text; `structured`: client
+addresses only inside operation errors reachable by `Unwrap` —, listed non-client expressions render no
+client address), what an emitted, non-exempt call site prints contains no client address: raw errors are
+clean, errors handed to `generalizeErr` are at most structured, and the sanitiser removes what they name. -/
 theorem site_render_no_client (s : Site) (hs : s ∈ CJ.Gen.logSites)
     (hem : emittedBy CJ.Gen.levelEmitted s.level = true) (hex : exemptFormats.contains s.format = false)
-    (env : Env) (hok : env.Ok) : noClient (renderSite env s) = true :=
-  site_ok_noClient CJ.Gen.levelEmitted s (sites_no_addr s hs) hem hex env hok
+    (env : Env) (hok : env.Ok fnClasses) : noClient (renderSite env s) = true :=
+  site_ok_noClient CJ.Gen.levelEmitted fnClasses s (sites_no_addr s hs) hem hex env hok
 
 /-- a `SetDeadline` failure as package net builds it (`OpError{Op: "set", Source: nil, Addr: laddr}`)
 names the local address only: logging it unchanged shows no client address -/
@@ -147,15 +245,16 @@ theorem digest_omits_registrant (r : RegInfo) (hp : r.phantom.role ≠ .client) 
 
 /-! ### non-vacuity -/
 
-/-- an environment that respects the reviewed tables exists (everything renders as plain text) -/
-example : Env.Ok { app := true, err := probe, raw := fun _ => .eof, exprToks := fun _ => [.str "x"] } :=
-  ⟨by decide, fun _ _ => rfl, fun _ _ _ _ => rfl⟩
+/-- an environment that respects the tables exists (everything renders as plain text) -/
+example : Env.Ok fnClasses { app := true, raw := fun _ => .eof, exprToks := fun _ => [.str "x"] } :=
+  ⟨fun o => by cases originCls fnClasses fnClasses.length o <;> first | rfl | trivial, fun _ _ _ _ => rfl⟩
 
 example : probe.opaqueClean = true := by decide
 
 /-- the table is not empty and contains emitted sites that print a generalised error -/
-example : (CJ.Gen.logSites.any fun s => emittedBy CJ.Gen.levelEmitted s.level && s.args.contains Arg.genErr) = true := by
-  set_option maxRecDepth 200000 in decide
+example : (CJ.Gen.logSites.any fun s => emittedBy CJ.Gen.levelEmitted s.level &&
+    s.args.any fun a => match a with | .err (.err _ true _) => true | _ => false) = true := by
+  decide +kernel
 
 /-- a wrapped operation error two levels deep, timeouts, anticipated errnos -/
 example : render (generalizedText false (.wrapped [.str "obfs4 handshake: "] probe)) = "read tcp: network is down" := by decide
